@@ -247,6 +247,25 @@ def oracle_param(c, o):
     return None
 
 
+def translate(ctx):
+    """Regenerate Gen/autograd_gen.v from _AutogradWrapper / LinearOperator.__init_subclass__ and re-check gen_* = Model/Autograd.v."""
+    from translate import autograd as tag
+    out = vlib.COQ / 'Gen' / 'autograd_gen.v'
+    out.parent.mkdir(exist_ok=True)
+    ok, why = tag.write(out)
+    ctx.extra.setdefault('coverage', {})['translator_available'] = ok
+    ctx.obligations += tag.N_OBLIGATIONS
+    if not ok:
+        ctx.notes.append(f'translator harness/translate/autograd.py failed closed ({why})')
+        ctx.problem('proof', 'gen_autograd', None, f'the autograd wiring of LinearOperator.py is outside the translated subset ({why}): the regenerated obligations cannot be stated')
+        return
+    rc, so, se = vlib.coqc_file(out)
+    if rc == 0:
+        ctx.discharged += tag.N_OBLIGATIONS
+    else:
+        ctx.problem('proof', 'gen_autograd', None, 'regenerated obligation gen_*_ok (autograd wiring == Model/Autograd.v) no longer proves: ' + (se or so)[-700:])
+
+
 FAMILIES = [
     Family('input_gradients', gen, impl, coq, PREAMBLE, compare, oracle, descr=C01.descr, shard=30,
            theorem='C05_wrapper_history, C05_adjoint_of_adjoint, C05_matmul_branches'),
